@@ -1175,6 +1175,12 @@ class comp(exp):
         # once simplified, it may be reduced to 1 part, so:
         if (0, res.size) in res.parts.keys():
             res = res.parts[(0, res.size)]
+            if res.sf != self.sf:
+                # the value keeps the signedness of the composite (the part
+                # may be shared, so flag a copy)
+                from copy import copy
+                res = copy(res)
+                res.sf = self.sf
         return res
 
     def copy(self):
